@@ -34,7 +34,9 @@ from pydbml import PyDBML
 out = {}
 for it in reversed(json.load(sys.stdin)):      # opposite order: a rendering must not depend on what was rendered before
     try:
-        if it['route'] == 'parsed':
+        if it['route'] == 'text':
+            db = PyDBML(it['text'], allow_properties=it['allow'])
+        elif it['route'] == 'parsed':
             db = PyDBML(print_doc(it['doc'], it['fseed'], it['pinned']), allow_properties=it['model']['allowprops'])
         elif it['route'].startswith('morphed'):
             db = builder.build_morphed(it['model'], it['route'].split(':')[1].split('+'))
@@ -65,10 +67,13 @@ def _exec_chunk(items):
     out = []
     hashes = {}
     for it in items:
-        m = it['model']
+        m = it.get('model')
         rec = {'tid': it['tid'], 'model': m, 's0': {'kind': 'error', 'class': 'not-run'}, 'readerr': '', 'st': [], 'det': True}
         try:
-            if it['route'] == 'parsed':
+            if it['route'] == 'text':
+                db = PyDBML(it['text'], allow_properties=it['allow'])
+                m = rec['model'] = pj.project_db(db)
+            elif it['route'] == 'parsed':
                 db = PyDBML(print_doc(it['doc'], it['fseed'], it['pinned']), allow_properties=m['allowprops'])
             elif it['route'].startswith('morphed'):
                 db = builder.build_morphed(m, it['route'].split(':')[1].split('+'))
@@ -96,7 +101,7 @@ def _exec_chunk(items):
             rec['det'] = False          # rendering changed the model
         out.append(rec)
     # the same models rendered by another interpreter under another hash seed
-    sub = [{k: it[k] for k in ('tid', 'route', 'doc', 'model', 'fseed', 'pinned')} for it in items if str(it['tid']) in hashes]
+    sub = [{k: it.get(k) for k in ('tid', 'route', 'doc', 'model', 'fseed', 'pinned', 'text', 'allow')} for it in items if str(it['tid']) in hashes]
     if sub:
         env = dict(os.environ)
         env['PYTHONHASHSEED'] = str(1 + (items[0]['tid'] % 4000))
@@ -135,7 +140,7 @@ def judge(prop: str, clauses: List[str], rep: core.Report, res, items, nontrivia
     seen_docs = set()
     for tid, (v, r) in res.items():
         it = items[tid]
-        if v['binding'] != 'out-of-domain' and it.get('doc') is not None and id(it['doc']) not in seen_docs:
+        if v['binding'] != 'out-of-domain' and it.get('doc') and id(it['doc']) not in seen_docs:
             seen_docs.add(id(it['doc']))
             cen.add(cs.doc_tags(it['doc']))
         if v['binding'] == 'out-of-domain':
@@ -162,7 +167,7 @@ def judge(prop: str, clauses: List[str], rep: core.Report, res, items, nontrivia
             rep.violation(stim, {'failing_clause': '; '.join(real), 'sql': r.get('_sql')})
         else:
             rep.traces_ok += 1
-            if nontrivial(it):
+            if it.get('model') is None or nontrivial(it):        # (a corpus document: real content)
                 rep.mark_nontrivial([it['seed'], it['route'], it.get('variant')])
 
 
@@ -215,6 +220,18 @@ def standard_main(prop: str, clauses: List[str], technique: str, rule: str, nont
                 tid += 1
                 items[tid] = {'tid': tid, 'route': route, 'doc': dm['doc'], 'model': dm['model'], 'fseed': None, 'pinned': {}, 'seed': pid}
         rep.notes['product_models'] = len(pm)
+        # real documents (pv/corpus.py); a note containing a single quote or a backslash is left to C13's sql route (the
+        # neutralisation of quotes is specified character by character there; SqlExec!SqlText knows the pool texts only)
+        from . import corpus
+        ncorp = 0
+        for s in corpus.sources(rep):
+            if "'''" in s['text'] or '\\' in s['text'] or "\\'" in s['text'] or any(ln.count("'") % 2 or ("'" in ln and 'note' in ln.lower() and ln.count("'") > 2) for ln in s['text'].split('\n')):
+                continue
+            tid += 1
+            ncorp += 1
+            items[tid] = {'tid': tid, 'route': 'text', 'text': s['text'], 'allow': s['allow'], 'doc': None, 'model': None, 'fseed': None, 'pinned': {},
+                          'seed': s['origin']}
+        rep.notes['corpus_documents_rendered_to_sql'] = ncorp
         if extra_items:
             for it in extra_items(rep):
                 tid += 1
